@@ -1,5 +1,5 @@
 from typing import Iterable, Callable, Any, SupportsFloat
-from sympy import Expr, S, Mul, Add, Pow, Abs, Min, Max, Derivative, Function as SymFunction, sympify
+from sympy import Expr, S, Mul, Add, Pow, Abs, Min, Max, Derivative, Indexed, Function as SymFunction, sympify
 from sympy.functions.elementary.miscellaneous import MinMaxBase
 from sympy.physics.units import Dimension, Quantity as SymQuantity
 from sympy.physics.units.systems.si import dimsys_SI
@@ -206,6 +206,10 @@ def collect_expression_and_dimension(expr: SupportsFloat) -> tuple[Expr, Dimensi
     # early return that works for `sympy.Quantity`, `SymbolNew`, `SymbolIndexedNew`, and `FunctionNew`
     if hasattr(expr, "dimension"):
         return expr, getattr(expr, "dimension")
+
+    # element of an indexed symbol, eg `p[i]`, has the dimension of the indexed symbol itself
+    if isinstance(expr, Indexed) and hasattr(expr.base, "dimension"):
+        return expr, getattr(expr.base, "dimension")
 
     for type_, collector in _cases.items():
         if isinstance(expr, type_):
